@@ -345,6 +345,19 @@ def opRef (f : List String) : String :=
     | some none => "na"
     | some (some l) => joinWith "." (l.map toString)))
 
+/-- routes: `findAllRoute` (Tie-proved equal to the tree regenerated from regexp.go) on all 64 inputs, in the order
+hasLinear, startZero, ascii, limitOne, unicode, pmOk (most significant first): r = regexp2 sweep, g = Go FindAll,
+s = single-match shortcut. -/
+def opRoutes : String :=
+  let bs := [false, true]
+  String.ofList (bs.flatMap fun a => bs.flatMap fun b => bs.flatMap fun c => bs.flatMap fun d => bs.flatMap fun e => bs.map fun f =>
+    match findAllRoute ⟨a, b, c, d, e, f, false⟩ with
+    | .r2All => 'r'
+    | .goAllAscii => 'g'
+    | .goAllUtf8 => 'g'
+    | .linearSingle => 's'
+    | _ => '?')
+
 def step (line : String) : String :=
   let f := words line
   match f.getD 0 "" with
@@ -354,6 +367,7 @@ def step (line : String) : String :=
   | "adv" => opAdv f
   | "pred" => opPred f
   | "iter" => opIter f
+  | "routes" => opRoutes
   | "ref" => opRef f
   | _ => "unknown-op"
 
